@@ -69,7 +69,7 @@ def replay(args):
         for n, e in enumerate(hist):
             op = e["op"]
             if op == "define":
-                r = sess(e["p"]).do({"op": "define", "i": e["i"], "v": e["v"], "shift": (n % 3) if kind != "main" else 0})
+                r = sess(e["p"]).do({"op": "define", "i": e["i"], "v": e["v"], "shift": (n % 3) if kind not in ("main", "inplace", "nosource") else 0})
                 ocode[(e["p"], e["i"])] = e["v"]
             elif op == "swap":
                 r = sess(e["p"]).do({"op": "swap", "i": e["i"], "v": e["v"]}); ocode[(e["p"], e["i"])] = e["v"]
@@ -158,9 +158,17 @@ def body(c):
         jobs.append((hid, h, "module", base, (2,))); hid += 1
     # other function kinds: single live slot histories (nested / lambda / __main__ script edited in place)
     single = [h for h in h1 if all(e.get("i", 1) == 1 for e in h)]
-    per_kind = 60 if c.quick else 600
-    for kind in ("nested", "lambda", "main", "indent"):
-        for h in (single if len(single) <= per_kind else rng.sample(single, per_kind)):
+    # the histories that matter most for the other kinds: a call, then the definition changes (new object or swapped code), then a call
+    def changes(h):
+        ops = [e["op"] for e in h]
+        return ("swap" in ops or ops.count("define") >= 2) and sum(1 for o in ops if o in ("call", "force")) >= 2
+    hot = [h for h in single if changes(h)]; cold = [h for h in single if not changes(h)]
+    per_kind = (150, 40) if c.quick else (3000, 600)
+    c.extra["single_slot_histories"] = {"with_redefinition": len(hot), "other": len(cold)}
+    for kind in ("nested", "lambda", "main", "indent", "inplace", "nosource"):
+        pick = (hot if len(hot) <= per_kind[0] else rng.sample(hot, per_kind[0])) + (cold if len(cold) <= per_kind[1] else rng.sample(cold, per_kind[1]))
+        for h in pick:
+            if kind in ("main", "inplace") and any(e.get("shift") for e in h): pass
             jobs.append((hid, h, kind, base)); hid += 1
     with ThreadPoolExecutor(max_workers=14) as ex:
         results = list(ex.map(replay, jobs))
@@ -178,7 +186,7 @@ def body(c):
     c.traces_validated = len(results)
     c.rule = ("histories over define(version) / swap __code__ / call(arg) / forced call(arg) / restart process / clear / evict on same-named functions sharing one "
               "cache directory: every behaviour of MemoryDesign.tla of length %d for one process with two live objects, TLC-simulated longer ones "
-              "for two processes, replayed on real Memory sessions (module-level, nested, lambda, __main__, and a module-level function whose versions differ only in the indentation of one line); distinct = (function kind, history) "
+              "for two processes, replayed on real Memory sessions (module-level, nested, lambda, __main__, a module-level function whose versions differ only in the indentation of one line, a module file edited in place, a __main__ function without retrievable source); distinct = (function kind, history) "
               "with >= 2 calls" % L)
     c.assumptions += ["versions differ in their source text; calls are sequential (no concurrent sessions)", "eviction emulated by removing the entry directory"]
 
